@@ -147,7 +147,10 @@ def check_bytes(data: bytes, addr: int, rep: Report, deep: bool, label: str) -> 
                                   f"len={ln} supplied={len(data)}"))
         text = res["text"]
         if text is None:
-            pass  # encode round-trip guard demotion: reported under C02
+            # The statement requires the text callback to accept whatever the info callback accepts (the usual cause
+            # is the encode round-trip guard, which C02 examines in detail).
+            rep.violate(Violation("consumer-agreement", f"text: {where}", "info accepts, text callback rejects", case_base,
+                                  f"info={ln} text=None for {data[:ln].hex()}"))
         elif not _is_exc(text):
             if text[1] != ln:
                 rep.violate(Violation("consumer-agreement", f"text: {where}", "length differs from info", case_base,
@@ -316,9 +319,114 @@ def _hyp_history(seed: int, n: int) -> Report:
     return rep
 
 
+def emu_history_violations(ops: List[Any]) -> Tuple[List[Violation], int]:
+    """One long-lived Emulator over a mutable memory. ops: ["put", where, hexbytes] writes instruction bytes (host
+    write), ["fetch", where] calls Emulator.decode_instruction; `where` is "next" (address following the last fetched
+    instruction), "same" (last fetched address) or an integer address. Every fetch must equal what a *fresh* emulator
+    fetches from the same memory contents and agree with the info callback (length) -- the fetch path must not depend
+    on anything fetched or decoded earlier."""
+    from sc62015.pysc62015.emulator import Emulator
+    from binja_test_mocks.eval_llil import Memory
+
+    store: Dict[int, int] = {}
+
+    def rd(a: int) -> int:
+        v = store.get(a)
+        return (mix32(0xE01, a) & 0xFF) if v is None else v
+
+    def wr(a: int, v: int) -> None:
+        store[a] = v & 0xFF
+
+    emu = Emulator(Memory(rd, wr), reset_on_init=False)
+    out: List[Violation] = []
+    last_addr, next_addr = 0x1000, 0x1000
+    fetches = 0
+    for i, op in enumerate(ops):
+        where = op[1]
+        addr = next_addr if where == "next" else last_addr if where == "same" else int(where)
+        addr &= 0xFFFFF
+        if op[0] == "put":
+            for j, b in enumerate(bytes.fromhex(op[2])):
+                store[(addr + j) & 0xFFFFF] = b
+            continue
+        case = {"kind": "emu-history", "ops": ops[: i + 1]}
+        try:
+            ins = emu.decode_instruction(addr)
+            got = (str(ins.name()), int(ins.length()))
+        except BaseException as exc:  # noqa: BLE001
+            out.append(Violation("totality", "emu: fetch history", f"raises {_exc_name(exc)}", case,
+                                 f"fetch #{i} at {addr:#x} raised {_exc_name(exc)}"))
+            break
+        fresh = Emulator(Memory(rd, wr), reset_on_init=False)
+        try:
+            fins = fresh.decode_instruction(addr)
+            want = (str(fins.name()), int(fins.length()))
+        except BaseException as exc:  # noqa: BLE001
+            want = ("EXC", _exc_name(exc))
+        data = bytes(rd((addr + j) & 0xFFFFF) for j in range(16)) if addr < 0xFFFF0 else bytes(rd(addr + j) for j in range(0x100000 - addr))
+        fetches += 1
+        if got != want:
+            out.append(Violation("history", "emu: fetch after earlier fetches/writes",
+                                 "long-lived emulator fetch differs from a fresh emulator on the same memory", case,
+                                 f"at {addr:#x} bytes {data[:8].hex()}: long-lived={got} fresh={want}"))
+            break
+        try:
+            info = G.arch().get_instruction_info(data, addr)
+        except BaseException:  # noqa: BLE001
+            info = None
+        if info is not None and not got[0].startswith("UNK_") and int(info.length) != got[1]:
+            out.append(Violation("consumer-agreement", "emu: fetch history", "length differs from info", case,
+                                 f"at {addr:#x} bytes {data[:8].hex()}: info={int(info.length)} emu={got}"))
+            break
+        last_addr, next_addr = addr, (addr + got[1]) & 0xFFFFF
+    return out, fetches
+
+
+def _hyp_emu_history(seed: int, n: int) -> Report:
+    import hypothesis
+    from hypothesis import given, settings, strategies as st, HealthCheck
+
+    rep = Report()
+    where = st.one_of(st.sampled_from(["next", "next", "next", "same"]), st.sampled_from([0x1000, 0x1004, 0x2000, 0xFFFF0, 0x0FFFC]))
+    code = st.one_of(st.binary(min_size=1, max_size=7),
+                     st.sampled_from([bytes([0x00]), bytes([0x08, 0x55]), bytes([0x32, 0xA0, 0x10]), bytes([0x0C, 1, 2, 3]),
+                                      bytes([0x56, 0x04]), bytes([0x32]), bytes([0xE3, 0x00, 0x10])]))
+    op = st.one_of(st.tuples(st.just("put"), where, code.map(lambda b: b.hex())), st.tuples(st.just("fetch"), where))
+
+    @hypothesis.seed(seed)
+    @settings(max_examples=n, deadline=None, database=None, report_multiple_bugs=False,
+              suppress_health_check=list(HealthCheck), phases=[hypothesis.Phase.generate])
+    @given(st.lists(op, min_size=3, max_size=24))
+    def prop(ops: List[Any]) -> None:
+        ops = [list(o) for o in ops]
+        vs, fetches = emu_history_violations(ops)
+        for v in vs:
+            rep.violate(v)
+        puts_after_fetch = any(o[0] == "put" and any(p[0] == "fetch" for p in ops[:k]) for k, o in enumerate(ops))
+        rep.case("emuhist:" + repr(ops) if (fetches >= 2 and puts_after_fetch) else None, ["kind:emu-history"],
+                 {"ops": ops} if rep.evaluations % 400 == 1 else None)
+
+    prop()
+    return rep
+
+
+def _preload() -> None:
+    """Import every repository module the checks use before Hypothesis generates anything (Hypothesis harvests
+    constants from loaded local modules, so lazy imports would make generation depend on import order)."""
+    import sc62015.arch  # noqa: F401
+    import sc62015.pysc62015.emulator  # noqa: F401
+    import binja_test_mocks.mock_llil  # noqa: F401
+    import binja_test_mocks.eval_llil  # noqa: F401
+
+
 def _raw_task(t: Tuple[str, int, int]) -> Report:
     kind, seed, n = t
-    return _hyp_raw(seed, n) if kind == "raw" else _hyp_history(seed, n)
+    _preload()
+    if kind == "raw":
+        return _hyp_raw(seed, n)
+    if kind == "emu":
+        return _hyp_emu_history(seed, n)
+    return _hyp_history(seed, n)
 
 
 def run(ctx: Ctx) -> Report:
@@ -327,8 +435,10 @@ def run(ctx: Ctx) -> Report:
     reports = ctx.pmap(_shard, tasks)
     n_raw = ctx.pick(2000, 30000)
     n_hist = ctx.pick(150, 2000)
+    n_emu = ctx.pick(1600, 16000)
     extra = [("raw", ctx.shard_seed(100 + i), n_raw // 8) for i in range(8)] + \
-            [("hist", ctx.shard_seed(200 + i), n_hist // 8) for i in range(8)]
+            [("hist", ctx.shard_seed(200 + i), n_hist // 8) for i in range(8)] + \
+            [("emu", ctx.shard_seed(300 + i), n_emu // 8) for i in range(8)]
     reports += ctx.pmap(_raw_task, extra)
     rep = ctx.merge_reports(reports)
     rep.rule = RULE
@@ -337,7 +447,7 @@ def run(ctx: Ctx) -> Report:
     rep.extra["exhaustive_dimension"] = ("(pre, opcode, second byte) complete" if ctx.tier == "thorough"
                                          else "operand-validating opcodes complete; others 1/16 stratified")
     rep.assumptions = [
-        "text callback returning None because of its encode round-trip guard while info accepts is C02's subject",
+        "emulator fetch histories compare a long-lived Emulator with a fresh one on the same memory contents",
         "emulator fetch path = Emulator.decode_instruction on a memory holding the bytes at the address",
         "an accepted instruction is compared across tails only on length/text/mnemonic (not object identity)",
     ]
@@ -346,6 +456,8 @@ def run(ctx: Ctx) -> Report:
 
 def replay(ctx: Ctx, case: Dict[str, Any]) -> List[Violation]:
     rep = Report()
+    if case.get("kind") == "emu-history":
+        return emu_history_violations(case["ops"])[0]
     if case.get("kind") == "history" and "history" in case:
         first: Dict[Any, Any] = {}
         for hx, addr in case["history"]:
